@@ -908,6 +908,12 @@ func (env *Env) call(x *ECall) (EV, error) {
 		}
 		h := ex.heap(env.st, "calls:"+key, ArrSort(SLog))
 		return EV{V: Select(h, ref)}, nil
+	case "glog":
+		// glog("name"): a global ghost log (e.g. the names passed to os.Remove)
+		if s, ok := x.Args[0].(*EStr); ok {
+			return EV{V: ex.heap(env.st, "glog:"+s.V, SLog)}, nil
+		}
+		return EV{}, fmt.Errorf("glog(\"name\")")
 	case "spawned":
 		if s, ok := x.Args[0].(*EStr); ok {
 			return EV{V: ex.heap(env.st, "spawned:"+s.V, SLog)}, nil
@@ -1117,6 +1123,16 @@ func (env *Env) typeArg(e Expr) (types.Type, error) {
 	if u, ok := e.(*EUnary); ok && u.Op == "*" {
 		ptr = true
 		e = u.X
+	}
+	if id, ok := e.(*EIdent); ok {
+		if o := types.Universe.Lookup(id.Name); o != nil {
+			if tn, ok := o.(*types.TypeName); ok {
+				if ptr {
+					return types.NewPointer(tn.Type()), nil
+				}
+				return tn.Type(), nil
+			}
+		}
 	}
 	v, err := env.eval(e)
 	if err != nil {
